@@ -794,6 +794,10 @@ let main_kvs file =
       | "T" :: _ :: s :: e :: _ -> ops := (int_of_string s, int_of_string e, true) :: !ops; ss := !cur :: !ss
       | "V" :: "b" :: _ -> evs := EvB :: !evs
       | "V" :: "w" :: a :: d :: _ -> let b = bytes_of_hex d in register_block b d; evs := EvW (n_of_string a, b) :: !evs
+      | "GK" :: k :: _ ->
+        (* Get on the recovered store, for every key, against its own recovered disk (counted by the harness) *)
+        if int_of_string k <> 0 then begin
+          incr nbadimg; Printf.printf "G - - BAD recovered-store-get-differs-from-its-disk keys=%s\n" k end
       | "G" :: n :: pat :: status :: dg :: _ ->
         if not !fin then begin
           fin := true; evarr := Array.of_list (List.rev !evs); img_b := !base; img_b_idx := 0;
